@@ -6,9 +6,11 @@ import (
 	"bytes"
 	"fmt"
 	"go/ast"
+	"go/build"
 	"go/parser"
 	"go/printer"
 	"go/token"
+	"os"
 	"path/filepath"
 	"reflect"
 	"strconv"
@@ -83,6 +85,52 @@ func GoEnums(pbgo string) ([]GoEnum, error) {
 	return es, nil
 }
 
+// typeExpr prints a Go type expression; a package qualifier is replaced by the
+// import path it stands for (timestamppb.Timestamp becomes
+// google.golang.org/protobuf/types/known/timestamppb.Timestamp).
+func typeExpr(e ast.Expr, imports map[string]string) string {
+	switch x := e.(type) {
+	case *ast.Ident:
+		return x.Name
+	case *ast.StarExpr:
+		return "*" + typeExpr(x.X, imports)
+	case *ast.ArrayType:
+		if x.Len == nil {
+			return "[]" + typeExpr(x.Elt, imports)
+		}
+		return "[?]" + typeExpr(x.Elt, imports)
+	case *ast.MapType:
+		return "map[" + typeExpr(x.Key, imports) + "]" + typeExpr(x.Value, imports)
+	case *ast.SelectorExpr:
+		if id, ok := x.X.(*ast.Ident); ok {
+			if path, ok := imports[id.Name]; ok {
+				return path + "." + x.Sel.Name
+			}
+			return id.Name + "." + x.Sel.Name
+		}
+	case *ast.Ellipsis:
+		return "..." + typeExpr(x.Elt, imports)
+	case *ast.InterfaceType:
+		return "interface{}"
+	}
+	return "?"
+}
+
+// fileImports maps the local name of each import of a file to its path. The
+// local name of an unnamed import is taken to be the last path element.
+func fileImports(f *ast.File) map[string]string {
+	out := map[string]string{}
+	for _, im := range f.Imports {
+		path, _ := strconv.Unquote(im.Path.Value)
+		name := path[strings.LastIndexByte(path, '/')+1:]
+		if im.Name != nil {
+			name = im.Name.Name
+		}
+		out[name] = path
+	}
+	return out
+}
+
 // GoStructs reads the struct types whose fields carry protobuf tags.
 func GoStructs(pbgo string) ([]GoStruct, error) {
 	f, _, err := parseGo(pbgo)
@@ -90,6 +138,7 @@ func GoStructs(pbgo string) ([]GoStruct, error) {
 		return nil, err
 	}
 	var out []GoStruct
+	imports := fileImports(f)
 	for _, d := range f.Decls {
 		gd, ok := d.(*ast.GenDecl)
 		if !ok || gd.Tok != token.TYPE {
@@ -118,7 +167,8 @@ func GoStructs(pbgo string) ([]GoStruct, error) {
 				pb, ok1 := st.Lookup("protobuf")
 				oo, ok2 := st.Lookup("protobuf_oneof")
 				if ok1 || ok2 {
-					gs.Fields = append(gs.Fields, GoField{fl.Names[0].Name, pb, oo})
+					gs.Fields = append(gs.Fields, GoField{GoName: fl.Names[0].Name, Type: typeExpr(fl.Type, imports), Tag: pb,
+						JSON: st.Get("json"), Oneof: oo, Key: st.Get("protobuf_key"), Val: st.Get("protobuf_val")})
 				}
 			}
 			if isMsg || len(gs.Fields) > 0 {
@@ -180,30 +230,198 @@ func GrpcSource(g *Grpc, grpcgo, service string) error {
 			}
 		}
 	}
+	imports := fileImports(f)
+	fullConsts := func(n ast.Node) []string {
+		var out []string
+		ast.Inspect(n, func(n ast.Node) bool {
+			if id, ok := n.(*ast.Ident); ok && strings.HasSuffix(id.Name, "_FullMethodName") {
+				for _, o := range out {
+					if o == id.Name {
+						return true
+					}
+				}
+				out = append(out, id.Name)
+			}
+			return true
+		})
+		return out
+	}
+	for _, d := range f.Decls {
+		switch x := d.(type) {
+		case *ast.FuncDecl:
+			if x.Body == nil {
+				continue
+			}
+			if x.Recv != nil && len(x.Recv.List) == 1 {
+				// methods of the unexported client type: <service>Client with a lower-case first letter
+				rt := typeExpr(x.Recv.List[0].Type, imports)
+				if !strings.EqualFold(rt, "*"+service+"Client") || ast.IsExported(strings.TrimPrefix(rt, "*")) {
+					continue
+				}
+				cm := ClientMethod{Name: x.Name.Name}
+				for _, p := range x.Type.Params.List {
+					for _, n := range p.Names {
+						if n.Name == "in" {
+							cm.In = typeExpr(p.Type, imports)
+						}
+					}
+				}
+				if x.Type.Results != nil && len(x.Type.Results.List) > 0 {
+					cm.Out = typeExpr(x.Type.Results.List[0].Type, imports)
+				}
+				cm.Const = strings.Join(fullConsts(x.Body), " ")
+				g.Client = append(g.Client, cm)
+				continue
+			}
+			if x.Recv == nil && strings.HasPrefix(x.Name.Name, "_"+service+"_") && strings.HasSuffix(x.Name.Name, "_Handler") {
+				h := HandlerFunc{Name: x.Name.Name, Consts: fullConsts(x.Body)}
+				ast.Inspect(x.Body, func(n ast.Node) bool {
+					c, ok := n.(*ast.CallExpr)
+					if !ok {
+						return true
+					}
+					if id, ok := c.Fun.(*ast.Ident); ok && id.Name == "new" && len(c.Args) == 1 && h.New == "" {
+						h.New = typeExpr(c.Args[0], imports)
+					}
+					if sel, ok := c.Fun.(*ast.SelectorExpr); ok {
+						if ta, ok := sel.X.(*ast.TypeAssertExpr); ok && typeExpr(ta.Type, imports) == service+"Server" {
+							seen := false
+							for _, o := range h.Calls {
+								seen = seen || o == sel.Sel.Name
+							}
+							if !seen {
+								h.Calls = append(h.Calls, sel.Sel.Name)
+							}
+						}
+					}
+					return true
+				})
+				g.Handlers = append(g.Handlers, h)
+			}
+		case *ast.GenDecl:
+			if x.Tok != token.VAR {
+				continue
+			}
+			for _, sp := range x.Specs {
+				vs := sp.(*ast.ValueSpec)
+				for i, n := range vs.Names {
+					if n.Name != service+"_ServiceDesc" || i >= len(vs.Values) {
+						continue
+					}
+					// every composite literal carrying a MethodName or StreamName key, in order
+					ast.Inspect(vs.Values[i], func(n ast.Node) bool {
+						cl, ok := n.(*ast.CompositeLit)
+						if !ok {
+							return true
+						}
+						var b HandlerBinding
+						named := false
+						for _, e := range cl.Elts {
+							kv, ok := e.(*ast.KeyValueExpr)
+							if !ok {
+								continue
+							}
+							k, _ := kv.Key.(*ast.Ident)
+							if k == nil {
+								continue
+							}
+							switch k.Name {
+							case "MethodName", "StreamName":
+								if bl, ok := kv.Value.(*ast.BasicLit); ok && bl.Kind == token.STRING {
+									b.Method, _ = strconv.Unquote(bl.Value)
+									named = true
+								}
+							case "Handler":
+								b.Handler = typeExpr(kv.Value, imports)
+							}
+						}
+						if named {
+							g.Bindings = append(g.Bindings, b)
+						}
+						return true
+					})
+				}
+			}
+		}
+	}
 	return nil
 }
 
-// ResolveSystems reads the constants of type System in util/resolve/resolve.go.
-// They are written System(apipb.System_X): the number is looked up among the
-// constants of the imported API package's api.pb.go.  Returns the constants and
-// the import path of the API package.
+// ResolveSystems reads the constants of type System of package util/resolve:
+// every non-test .go file of the directory that the default build context
+// selects (so a constant moved to another file is still read). They are written
+// System(apipb.System_X): the number is looked up among the constants of the
+// imported API package's api.pb.go. Returns the constants (files in name order,
+// declaration order within a file) and the import path of the API package.
 func ResolveSystems(repo string) ([]ResolveConst, string, error) {
-	f, fset, err := parseGo(filepath.Join(repo, "util/resolve/resolve.go"))
+	dir := filepath.Join(repo, "util/resolve")
+	ents, err := os.ReadDir(dir)
 	if err != nil {
 		return nil, "", err
 	}
-	imports := map[string]string{} // local name -> path
-	for _, im := range f.Imports {
-		path, _ := strconv.Unquote(im.Path.Value)
-		name := filepath.Base(path)
-		if im.Name != nil {
-			name = im.Name.Name
+	type constDecl struct {
+		name     string
+		expr     ast.Expr
+		iota     int64
+		imports  map[string]string
+		isSystem bool
+		text     string
+	}
+	var decls []*constDecl
+	byName := map[string]*constDecl{}
+	for _, ent := range ents {
+		name := ent.Name()
+		if ent.IsDir() || !strings.HasSuffix(name, ".go") || strings.HasSuffix(name, "_test.go") {
+			continue
 		}
-		imports[name] = path
+		if ok, err := build.Default.MatchFile(dir, name); err != nil || !ok {
+			continue
+		}
+		f, fset, err := parseGo(filepath.Join(dir, name))
+		if err != nil {
+			return nil, "", err
+		}
+		imports := fileImports(f)
+		for _, d := range f.Decls {
+			gd, ok := d.(*ast.GenDecl)
+			if !ok || gd.Tok != token.CONST {
+				continue
+			}
+			var last *ast.ValueSpec
+			for i, sp := range gd.Specs {
+				vs := sp.(*ast.ValueSpec)
+				src := vs
+				if len(vs.Values) == 0 && vs.Type == nil && last != nil {
+					src = last // implicit repetition
+				} else {
+					last = vs
+				}
+				for j, n := range vs.Names {
+					if j >= len(src.Values) || n.Name == "_" {
+						continue
+					}
+					e := src.Values[j]
+					cd := &constDecl{name: n.Name, expr: e, iota: int64(i), imports: imports}
+					if id, ok := src.Type.(*ast.Ident); ok && id.Name == "System" {
+						cd.isSystem = true
+					}
+					if c, ok := e.(*ast.CallExpr); ok {
+						if id, ok := c.Fun.(*ast.Ident); ok && id.Name == "System" {
+							cd.isSystem = true
+						}
+					}
+					var sb bytes.Buffer
+					printer.Fprint(&sb, fset, e)
+					cd.text = sb.String()
+					decls = append(decls, cd)
+					byName[n.Name] = cd
+				}
+			}
+		}
 	}
 	apiImport := ""
 	pkgConsts := map[string]map[string]int64{}
-	lookupPkg := func(local string) (map[string]int64, bool) {
+	lookupPkg := func(imports map[string]string, local string) (map[string]int64, bool) {
 		path, ok := imports[local]
 		if !ok || !strings.HasPrefix(path, "deps.dev/api/") {
 			return nil, false
@@ -220,94 +438,81 @@ func ResolveSystems(repo string) ([]ResolveConst, string, error) {
 		pkgConsts[path] = m
 		return m, true
 	}
-	env := map[string]int64{}
-	var eval func(e ast.Expr, iota int64) (int64, bool)
-	eval = func(e ast.Expr, iota int64) (int64, bool) {
+	busy := map[string]bool{}
+	var evalDecl func(cd *constDecl) (int64, bool)
+	var eval func(cd *constDecl, e ast.Expr) (int64, bool)
+	evalDecl = func(cd *constDecl) (int64, bool) {
+		if busy[cd.name] {
+			return 0, false
+		}
+		busy[cd.name] = true
+		defer delete(busy, cd.name)
+		return eval(cd, cd.expr)
+	}
+	eval = func(cd *constDecl, e ast.Expr) (int64, bool) {
 		switch x := e.(type) {
-		case *ast.BasicLit, *ast.UnaryExpr:
+		case *ast.BasicLit:
 			return intLit(e)
+		case *ast.UnaryExpr:
+			v, ok := eval(cd, x.X)
+			switch x.Op {
+			case token.SUB:
+				return -v, ok
+			case token.ADD:
+				return v, ok
+			}
 		case *ast.ParenExpr:
-			return eval(x.X, iota)
+			return eval(cd, x.X)
 		case *ast.Ident:
 			if x.Name == "iota" {
-				return iota, true
+				return cd.iota, true
 			}
-			v, ok := env[x.Name]
-			return v, ok
+			if o, ok := byName[x.Name]; ok {
+				return evalDecl(o)
+			}
 		case *ast.SelectorExpr:
 			if id, ok := x.X.(*ast.Ident); ok {
-				if m, ok := lookupPkg(id.Name); ok {
+				if m, ok := lookupPkg(cd.imports, id.Name); ok {
 					v, ok := m[x.Sel.Name]
 					return v, ok
 				}
 			}
 		case *ast.CallExpr: // conversion System(...)
 			if len(x.Args) == 1 {
-				if id, ok := x.Fun.(*ast.Ident); ok && (id.Name == "System" || id.Name == "byte" || id.Name == "int") {
-					return eval(x.Args[0], iota)
+				if id, ok := x.Fun.(*ast.Ident); ok && (id.Name == "System" || id.Name == "byte" || id.Name == "int" || id.Name == "uint8") {
+					return eval(cd, x.Args[0])
 				}
 			}
 		case *ast.BinaryExpr:
-			a, ok1 := eval(x.X, iota)
-			b, ok2 := eval(x.Y, iota)
+			a, ok1 := eval(cd, x.X)
+			b, ok2 := eval(cd, x.Y)
 			if ok1 && ok2 {
 				switch x.Op {
 				case token.ADD:
 					return a + b, true
 				case token.SUB:
 					return a - b, true
+				case token.MUL:
+					return a * b, true
 				}
 			}
 		}
 		return 0, false
 	}
-	isSystemExpr := func(vs *ast.ValueSpec, e ast.Expr) bool {
-		if id, ok := vs.Type.(*ast.Ident); ok && id.Name == "System" {
-			return true
-		}
-		if c, ok := e.(*ast.CallExpr); ok {
-			if id, ok := c.Fun.(*ast.Ident); ok && id.Name == "System" {
-				return true
-			}
-		}
-		return false
-	}
+	// a constant declared without type whose value is another System constant is a System too
 	var out []ResolveConst
-	for _, d := range f.Decls {
-		gd, ok := d.(*ast.GenDecl)
-		if !ok || gd.Tok != token.CONST {
+	for _, cd := range decls {
+		if !cd.isSystem {
 			continue
 		}
-		var last *ast.ValueSpec
-		for i, s := range gd.Specs {
-			vs := s.(*ast.ValueSpec)
-			src := vs
-			if len(vs.Values) == 0 && vs.Type == nil && last != nil {
-				src = last // implicit repetition
-			} else {
-				last = vs
-			}
-			for j, n := range vs.Names {
-				if j >= len(src.Values) {
-					continue
-				}
-				e := src.Values[j]
-				if !isSystemExpr(src, e) || n.Name == "_" {
-					continue
-				}
-				var sb bytes.Buffer
-				printer.Fprint(&sb, fset, e)
-				rc := ResolveConst{Name: n.Name, Expr: sb.String()}
-				if v, ok := eval(e, int64(i)); ok {
-					env[n.Name] = v
-					rc.Value = &v
-				}
-				out = append(out, rc)
-			}
+		rc := ResolveConst{Name: cd.name, Expr: cd.text}
+		if v, ok := evalDecl(cd); ok {
+			rc.Value = &v
 		}
+		out = append(out, rc)
 	}
 	if len(out) == 0 {
-		return nil, apiImport, fmt.Errorf("no constants of type System found in util/resolve/resolve.go")
+		return nil, apiImport, fmt.Errorf("no constants of type System found in util/resolve")
 	}
 	return out, apiImport, nil
 }
